@@ -596,13 +596,18 @@ impl<'de> Visitor<'de> for IDLValueVisitor {
         use serde::de::VariantAccess;
         let (variant, visitor) = data.variant::<IDLValue>()?;
         if let IDLValue::Text(v) = variant {
-            let v: Vec<_> = v.split(',').collect();
-            let (id, style) = match v.as_slice() {
-                [name, "name", style] => (Label::Named(name.to_string()), style),
-                [hash, "id", style] => (Label::Id(hash.parse::<u32>().unwrap()), style),
+            // The label itself may contain commas: split off the two trailing markers only.
+            let mut parts = v.rsplitn(3, ',');
+            let (style, kind, label) = match (parts.next(), parts.next(), parts.next()) {
+                (Some(style), Some(kind), Some(label)) => (style, kind, label),
                 _ => unreachable!(),
             };
-            let val = match *style {
+            let id = match kind {
+                "name" => Label::Named(label.to_string()),
+                "id" => Label::Id(label.parse::<u32>().unwrap()),
+                _ => unreachable!(),
+            };
+            let val = match style {
                 "unit" => {
                     visitor.unit_variant()?;
                     IDLValue::Null
